@@ -76,3 +76,12 @@ Definition exact_cover4 (base len : N) (pats : list str) : bool :=
 
 (* ------------------------------------------------------------ IPv6: coverage of given addresses *)
 Definition covered (pats : list str) (text : str) : bool := existsb (fun p => pat_matches p text) pats.
+
+(* ------------------------------------------------------------ IPv6: the domain of the coverage theorem *)
+(* every completely fixed 16-bit group of every nibble-aligned subnet the expansion enumerates is
+   non-zero (so no fixed group can take part in '::' compression) *)
+Definition nonzero_groups (l : list N) : bool := forallb (fun g => negb (g =? 0)) l.
+Definition fixed_nonzero6 (a len : N) : bool :=
+  let diff := (4 - len mod 4) mod 4 in
+  forallb (fun sub => nonzero_groups (firstn (N.to_nat ((len + diff) / 16)) (groups6 sub)))
+          (subnets 128 a len diff).
